@@ -202,6 +202,83 @@ theorem cohesiveCardinal (E : JR.Setting) (k : JR.Kind) (hk : k ≠ .core) (size
   rw [length_zero_eq, length_zero_eq]
   cases k <;> first | exact absurd rfl hk | simp [JR.adm, Bool.and_assoc]
 
+/-! ### `is_cohesive_approval` / `is_cohesive_cardinal` as whole functions (statement-level leaves) -/
+
+private theorem approvalLoop (a : Bool) (b c : Rat) : ∀ (rows : List (List Bool)),
+    (Gen.C14.isCohesiveApprovalFnLoop a b c rows).getD true = rows.all (fun r => r.all (fun y => y))
+  | [] => by simp [Gen.C14.isCohesiveApprovalFnLoop]
+  | r :: rows => by
+    rw [Gen.C14.isCohesiveApprovalFnLoop, List.all_cons]
+    by_cases h : r.any (fun y => !y) = true
+    · have hr : r.all (fun y => y) = false := by
+        rw [List.any_eq_true] at h
+        obtain ⟨y, hy, hy'⟩ := h
+        rw [List.all_eq_false]
+        exact ⟨y, hy, by simpa using hy'⟩
+      simp [h, hr]
+    · have hr : r.all (fun y => y) = true := by
+        rw [List.all_eq_true]
+        intro y hy
+        by_contra hc
+        exact h (List.any_eq_true.mpr ⟨y, hy, by simpa using hc⟩)
+      simp only [h, if_false, hr, Bool.true_and, Bool.false_eq_true]
+      exact approvalLoop a b c rows
+
+/-- the WHOLE of `is_cohesive_approval` — size guard, emptiness guard, the double loop with its early `return False`, `return True` —
+    regenerated as `Gen.C14.isCohesiveApprovalFn`, is the model's admissibility test of a (group, project set) pair -/
+theorem isCohesiveApprovalFn (E : JR.Setting) (k : JR.Kind) (hk : k ≠ .core) (size : Nat) (S : List JR.Voter) (T : List Pid) :
+    JR.adm E false k size S T =
+      Gen.C14.isCohesiveApprovalFn (JR.largeEnough E size T) ((S.length : Nat) : Rat) ((T.length : Nat) : Rat)
+        (S.map (fun v => T.map (fun p => v.app p))) := by
+  rw [cohesiveApproval E k hk size S T]
+  unfold Gen.C14.isCohesiveApprovalFn Gen.C14.cohApprovalTooSmall Gen.C14.cohApprovalEmpty Gen.C14.cohApprovalPairFails
+  beta_reduce
+  rw [approvalLoop]
+  have hall : (S.map (fun v => T.map (fun p => v.app p))).all (fun r => r.all (fun y => y)) =
+      S.all (fun v => T.all (fun p => !(!v.app p))) := by
+    simp [List.all_map, Function.comp_def]
+  rw [hall]
+  cases JR.largeEnough E size T <;>
+    cases decide (((S.length : Nat) : Rat) = 0) || decide (((T.length : Nat) : Rat) = 0) <;> simp
+
+private theorem cardinalLoop (a : Bool) (b c : Rat) : ∀ (rows : List (List (Rat × Rat))),
+    (Gen.C14.isCohesiveCardinalFnLoop a b c rows).getD true =
+      rows.all (fun r => r.all (fun y => !decide (y.1 < y.2)))
+  | [] => by simp [Gen.C14.isCohesiveCardinalFnLoop]
+  | r :: rows => by
+    rw [Gen.C14.isCohesiveCardinalFnLoop, List.all_cons]
+    by_cases h : r.any (fun y => decide (y.1 < y.2)) = true
+    · have hr : r.all (fun y => !decide (y.1 < y.2)) = false := by
+        rw [List.any_eq_true] at h
+        obtain ⟨y, hy, hy'⟩ := h
+        rw [List.all_eq_false]
+        exact ⟨y, hy, by simpa using hy'⟩
+      simp [h, hr]
+    · have hr : r.all (fun y => !decide (y.1 < y.2)) = true := by
+        rw [List.all_eq_true]
+        intro y hy
+        by_contra hc
+        exact h (List.any_eq_true.mpr ⟨y, hy, by simpa using hc⟩)
+      simp only [h, if_false, hr, Bool.true_and, Bool.false_eq_true]
+      exact cardinalLoop a b c rows
+
+/-- the WHOLE of `is_cohesive_cardinal`, called as `cohesive_groups` calls it (`alpha[p]` = the group's minimum score of `p`) -/
+theorem isCohesiveCardinalFn (E : JR.Setting) (k : JR.Kind) (hk : k ≠ .core) (size : Nat) (S : List JR.Voter) (T : List Pid) :
+    JR.adm E true k size S T =
+      Gen.C14.isCohesiveCardinalFn (JR.largeEnough E size T) ((S.length : Nat) : Rat) ((T.length : Nat) : Rat)
+        (S.map (fun v => T.map (fun p => (v.u p, Gen.C14.cohAlphaMin (JR.minOver S p))))) := by
+  rw [cohesiveCardinal E k hk size S T]
+  unfold Gen.C14.isCohesiveCardinalFn Gen.C14.cohCardinalTooSmall Gen.C14.cohCardinalEmpty Gen.C14.cohCardinalPairFails
+  beta_reduce
+  rw [cardinalLoop]
+  have hall : (S.map (fun v => T.map (fun p => (v.u p, Gen.C14.cohAlphaMin (JR.minOver S p))))).all
+        (fun r => r.all (fun y => !decide (y.1 < y.2))) =
+      S.all (fun v => T.all (fun p => !decide (v.u p < Gen.C14.cohAlphaMin (JR.minOver S p)))) := by
+    simp [List.all_map, Function.comp_def]
+  rw [hall]
+  cases JR.largeEnough E size T <;>
+    cases decide (((S.length : Nat) : Rat) = 0) || decide (((T.length : Nat) : Rat) = 0) <;> simp
+
 example : Gen.C14.isLargeEnough 2 4 5 10 = true ∧ Gen.C14.isLargeEnough 1 4 5 10 = false := by
   norm_num [Gen.C14.isLargeEnough]
 
